@@ -1114,6 +1114,7 @@ type Reader struct {
 	ctx             map[string]any
 	parentCtx       *map[string]any
 	headless        bool
+	err             error // first decoding error (sticky)
 }
 
 type decodingTask struct {
@@ -1660,6 +1661,11 @@ func (this *Reader) Read(block []byte) (int, error) {
 		return 0, &IOError{msg: "Stream closed", code: kanzi.ERR_READ_FILE}
 	}
 
+	if this.err != nil {
+		// A block could not be decoded: never serve data located beyond it
+		return 0, this.err
+	}
+
 	if err := this.readHeader(); err != nil {
 		return 0, err
 	}
@@ -1695,6 +1701,9 @@ func (this *Reader) Read(block []byte) (int, error) {
 			var err error
 
 			if this.available, err = this.processBlock(); err != nil {
+				// Do not serve the content of the buffers of a failed batch
+				this.available = 0
+				this.err = err
 				return len(block) - remaining, err
 			}
 
